@@ -38,10 +38,15 @@ func TestVerifV2Conc(t *testing.T) {
 	}
 	n := vuEnvInt("VERIF_GOROUTINES", 8)
 	rounds := vuEnvInt("VERIF_ROUNDS", 3)
-	// sequential reference
+	// sequential reference on a SEPARATE instance: the shared classifier meets its first calls concurrently
+	// (anything built lazily on first use would be built by racing goroutines)
+	refc := vt.build("c09ref", 0.8, docs)
 	for i, in := range inputs {
-		vt.match(c, in, v2MatchOpts{memo: fmt.Sprintf("c09|%d", i)})
+		vt.match(refc, in, v2MatchOpts{memo: fmt.Sprintf("c09|%d", i)})
 	}
+	// a second shared classifier with tracing configured (wildcard license patterns, a phase that never fires)
+	ct := vt.build("c09trace", 0.8, docs)
+	ct.c.SetTraceConfiguration(&TraceConfiguration{TraceLicenses: "License/A*,Header/*,License/BSD*", TracePhases: "nonesuch", Tracer: func(string, ...interface{}) {}})
 	// which arrays are corpus storage
 	corpus := map[uintptr]string{}
 	for k, d := range c.c.docs {
@@ -91,9 +96,13 @@ func TestVerifV2Conc(t *testing.T) {
 					if (g+k)%3 == 0 {
 						api = "MatchFrom"
 					}
-					res := vt.matchQuiet(c, inputs[i], api)
+					cc := c
+					if (g+r)%2 == 1 {
+						cc = ct
+					}
+					res := vt.matchQuiet(cc, inputs[i], api)
 					emu.Lock()
-					vt.emitMatch(c, inputs[i], res, fmt.Sprintf("c09|%d", i), api)
+					vt.emitMatch(cc, inputs[i], res, fmt.Sprintf("c09|%d", i), api)
 					emu.Unlock()
 				}
 			}(g)
